@@ -145,6 +145,79 @@ pub fn run_case(case: &Value) -> (Vec<F>, String) {
             }
             outcome = "errors".into();
         }
+        "rejected" => {
+            // spawns that cannot be honoured (name already running / no content) arriving while an
+            // instance of the name exists: each yields one spawn.error, none is started, and the
+            // running instance keeps its lifecycle (restart after stop, sole consumer of sends)
+            let ctx = w.ctx_a;
+            let duplex = case["duplex"].as_bool().unwrap_or(false);
+            let sp = if duplex {
+                w.append_c("rg.spawn", ctx, Some("lines | first 1 | each {|x| $\"echo:($x)\"}"), Some(json!({"duplex": true})))
+            } else {
+                w.append_c("rg.spawn", ctx, Some("\"solo\""), None)
+            };
+            let st = w.wait(|f| f.topic == "rg.start" && meta_str(f, "source_id") == Some(sp.id.to_string()), 20.0);
+            if st.is_none() {
+                fs.push(F { kind: "c18.incomplete".into(), msg: format!("{}: no start", label) });
+            }
+            if !duplex {
+                // between two lifecycles: the name is still taken
+                w.wait(|f| f.topic == "rg.stop" && meta_str(f, "source_id") == Some(sp.id.to_string()), 20.0);
+            }
+            let mut rejected = vec![];
+            for r in case["rejects"].as_array().cloned().unwrap_or_default() {
+                let f = match r.as_str().unwrap_or("") {
+                    "nocontent" => w.append_c("rg.spawn", ctx, None, None),
+                    _ => w.append_c("rg.spawn", ctx, Some("\"intruder\""), None),
+                };
+                let e = w.wait(|x| x.topic.starts_with("rg.") && x.topic != "rg.spawn" && meta_str(x, "source_id") == Some(f.id.to_string()), 20.0);
+                match e {
+                    Some(e) if e.topic == "rg.spawn.error" => {}
+                    other => fs.push(F { kind: if other.is_some() { "c18.error.started".into() } else { "c18.error.silent".into() }, msg: format!("{}: a spawn ({}) for a name that has an instance answered {:?} instead of spawn.error", label, r, other.map(|f| f.topic)) }),
+                }
+                rejected.push(f.id.to_string());
+            }
+            let mark = w.append_c("mark", ctx, None, None);
+            if duplex {
+                w.append_c("rg.send", ctx, Some("one\n"), None);
+                let stop = w.wait(|f| f.topic == "rg.stop" && f.id > mark.id && meta_str(f, "source_id") == Some(sp.id.to_string()), 20.0);
+                if stop.is_none() {
+                    fs.push(F { kind: "c18.duplex.lost".into(), msg: format!("{}: the instance did not consume the send and end", label) });
+                }
+            }
+            // the original instance is started again
+            let again = w.wait(|f| f.topic == "rg.start" && f.id > mark.id && meta_str(f, "source_id") == Some(sp.id.to_string()), 6.0);
+            if again.is_none() {
+                fs.push(F { kind: "c18.norestart".into(), msg: format!("{}: after rejected spawns the generator was not started again after its stop", label) });
+            } else if duplex {
+                std::thread::sleep(Duration::from_millis(300));
+                w.append_c("rg.send", ctx, Some("two\n"), None);
+                w.wait(|f| f.topic == "rg.recv" && w.content(f).as_deref() == Some("echo:two"), 20.0);
+                std::thread::sleep(Duration::from_millis(100));
+            }
+            let log = w.snapshot();
+            for id in &rejected {
+                let n = log.iter().filter(|f| f.topic == "rg.spawn.error" && meta_str(f, "source_id").as_deref() == Some(id)).count();
+                if n != 1 {
+                    fs.push(F { kind: "c18.error.count".into(), msg: format!("{}: a rejected spawn produced {} spawn.error frames", label, n) });
+                }
+            }
+            for f in log.iter().filter(|f| f.topic.starts_with("rg.") && f.topic != "rg.spawn" && f.topic != "rg.send" && f.topic != "rg.spawn.error") {
+                if meta_str(f, "source_id") != Some(sp.id.to_string()) {
+                    fs.push(F { kind: "c18.error.started".into(), msg: format!("{}: {} carries source_id {:?}: a rejected spawn runs", label, f.topic, meta_str(f, "source_id")) });
+                    break;
+                }
+            }
+            if duplex {
+                for (msg, want) in [("echo:one", 1usize), ("echo:two", if again.is_some() { 1 } else { 0 })] {
+                    let n = log.iter().filter(|f| f.topic == "rg.recv" && w.content(f).as_deref() == Some(msg)).count();
+                    if n != want {
+                        fs.push(F { kind: "c18.duplex.sequence".into(), msg: format!("{}: {:?} was produced {} times, expected {}", label, msg, n, want) });
+                    }
+                }
+            }
+            outcome = format!("rejected{}", rejected.len());
+        }
         "duplex-restart" => {
             // a duplex pipeline that ends after 2 inputs: the restarted instance must not be fed
             // the sends of the previous lifecycle again
@@ -239,6 +312,11 @@ pub fn cases(thorough: bool) -> Vec<Value> {
     }
     v.push(json!({"kind": "errors"}));
     v.push(json!({"kind": "duplex-restart"}));
+    for duplex in [false, true] {
+        for rejects in [vec!["dup"], vec!["nocontent"], vec!["dup", "dup"], vec!["nocontent", "dup"]] {
+            v.push(json!({"kind": "rejected", "duplex": duplex, "rejects": rejects}));
+        }
+    }
     for n in 0..=3 {
         for noise in [false, true] {
             v.push(json!({"kind": "duplex", "sends": n, "noise": noise}));
